@@ -43,8 +43,10 @@ func IsLocalRedirect(target string) bool {
 	}
 	// http.Redirect cleans relative paths: "./\\host" and "a/../\\host" become
 	// "/\\host", which is scheme-relative again. A backslash has no business in
-	// the path of a redirect target.
-	if i := strings.IndexAny(s, "?#\\"); i >= 0 && s[i] == '\\' {
+	// the path of a redirect target. http.Redirect only sets the query aside
+	// before it cleans, so a fragment counts as path here: "/#/../\\host" is
+	// cleaned to "/\\host" as well.
+	if i := strings.IndexAny(s, "?\\"); i >= 0 && s[i] == '\\' {
 		return false
 	}
 
